@@ -28,7 +28,9 @@ def base_routes():
             r(peer=(4, 2)), r(peer=(4, 2), rest=7),
             r(origin=2), r(origin=2, med=10),
             r(path=('a10', 'a20', 'a30')), r(dop=200), r(dop=200, rest=7),
-            r(ibgp=1, local_pref=150), r(bgp_id=2, peer=(6, 1))]
+            r(ibgp=1, local_pref=150), r(bgp_id=2, peer=(6, 1)),
+            # the same preference through a different content: an explicit degree of preference / MED of 0 against none
+            r(dop=0), r(med=0), r(ibgp=1, local_pref=150, dop=150)]
 
 
 def gen(ctx):
@@ -54,7 +56,15 @@ def gen(ctx):
     for _ in range(1500 if ctx.tier == 'quick' else 40000):
         n = 1 + rng.below(12)
         strat = 'R' if rng.chance(1, 4) else 'S'
-        cases.append((strat, [routes.random_route(rng, eligible_only=True) for _ in range(n)]))
+        rs = [routes.random_route(rng, eligible_only=True) for _ in range(n)]
+        # near-duplicates: a copy of one of the candidates with a single field changed (often to an equivalent encoding)
+        for _ in range(rng.below(3)):
+            c = dict(rs[rng.below(len(rs))])
+            f = rng.choice(['dop', 'med', 'local_pref', 'rest', 'origin', 'originator', 'cluster_len'])
+            c[f] = routes.LATTICE[f][rng.below(len(routes.LATTICE[f]))]
+            if routes.eligible(c):
+                rs.insert(rng.below(len(rs) + 1), c)
+        cases.append((strat, rs))
     return cases
 
 
